@@ -841,7 +841,7 @@ func (d *Discharger) discharge(o *Obligation) {
 			tag = ", goal-directed"
 			lastReduced = lt
 		}
-		if tryUF(lu, tag, d.quickS) {
+		if tryUF(lu, tag, 10) {
 			return
 		}
 		lid := int(atomic.AddInt64(&d.nq, 1))
@@ -874,7 +874,7 @@ func (d *Discharger) discharge(o *Obligation) {
 		return
 	}
 	if text != lastReduced {
-		if tryUF(uf, "", d.quickS) {
+		if tryUF(uf, "", 10) {
 			return
 		}
 	}
